@@ -194,7 +194,7 @@ def h_smc_sched(ctx, bs, n, rounds, K, max_queries=3, mode='thresholds'):
 
 HARNESSES += [
     H('smc_thr_bs2_n2_r2', h_smc_sched, dict(bs=2, n=2, rounds=2, K=2), path_timeout=300,
-      bounds='SMC thresholds, 2 rounds, batch_size 2, n=2, <=2 consumed batches, max_parallel in {2,3}, <=3 free is_ready answers'),
+      bounds='SMC thresholds, 2 rounds, batch_size 2, n=2, <=2 submitted batch indices, max_parallel in {2,3}, <=3 free is_ready answers'),
     H('smc_thr_bs1_n2_r2', h_smc_sched, dict(bs=1, n=2, rounds=2, K=4, max_queries=4), path_timeout=300, tiers=('thorough',),
       bounds='SMC thresholds, 2 rounds, batch_size 1, n=2, <=4 consumed batches, max_parallel in {2,3}, <=4 free answers'),
     H('smc_q_bs2_n2_r2', h_smc_sched, dict(bs=2, n=2, rounds=2, K=2, mode='quantiles'), path_timeout=300,
@@ -203,4 +203,57 @@ HARNESSES += [
     H('smc_q_bs1_n2_r2', h_smc_sched, dict(bs=1, n=2, rounds=2, K=4, max_queries=4, mode='quantiles'), path_timeout=300,
       tiers=('thorough',),
       bounds='SMC quantiles, 2 rounds, batch_size 1, n=2, <=4 consumed batches, max_parallel in {2,3}, <=4 free answers'),
+]
+
+
+# ---------------------------------------------------------------- BatchHandler protocol under solver-chosen scripts
+
+def h_batch_handler_script(ctx, n_ops, K=5):
+    """submit / wait_next / cancel_pending / reset in any order on the real BatchHandler + loaders + sub-seed cache: every
+    batch is consumed with the values of its own index, whatever was submitted, cancelled and rewound before."""
+    import elfi.model.elfi_model as em
+    w = World(ctx, 1, max_batches=K, d_specials=())
+    ops = ('submit', 'wait_next', 'cancel_pending', 'reset')
+    script = []
+    with w.env():
+        client = SchedClient(ctx, num_cores=2, always_ready=True)
+        context = em.ComputationContext(batch_size=1, seed=w.seed)
+        bh = elfi.client.BatchHandler(w.model, context=context, output_names=['t', 'd'], client=client)
+        nxt, pending = 0, []
+        for k in range(n_ops):
+            op = ops[ctx.choice('op%d' % k, len(ops))]
+            script.append(op)
+            if op == 'submit':
+                if nxt >= K:
+                    raise core.Infeasible()
+                bh.submit()              # (a wrong generator seed for this index raises SubSeedMismatch in the loader)
+                pending.append(nxt)
+                nxt += 1
+            elif op == 'wait_next':
+                if not pending:
+                    raise core.Infeasible()
+                batch, bi = bh.wait_next()
+                want = pending.pop(0)
+                ctx.claim('op%d_oldest_pending_index_is_returned' % k, bi == want)
+                ctx.claim('op%d_batch_has_the_values_of_its_index' % k, And(
+                    close(batch['t'][0], w.values[('t', want)][0]), close(batch['d'][0], w.values[('d', want)][0])))
+            elif op == 'cancel_pending':
+                bh.cancel_pending()
+                if pending:
+                    nxt = pending[0]
+                pending = []
+            else:
+                bh.reset()
+                nxt, pending = 0, []
+            ctx.claim('op%d_counters' % k, bh.next_index == nxt and bh.num_pending == len(pending) and
+                      list(bh.pending_indices) == pending and len(client.tasks) == len(pending))
+    ctx.note('script=%s' % script)
+    ctx.claim('no_protocol_error', client.errors == [])
+
+
+HARNESSES += [
+    H('batch_handler_script5', h_batch_handler_script, dict(n_ops=5), bounds='every script of 5 operations from submit / wait_next / '
+      'cancel_pending / reset on one BatchHandler (batch_size 1, <=5 batch indices)'),
+    H('batch_handler_script7', h_batch_handler_script, dict(n_ops=7, K=6), tiers=('thorough',),
+      bounds='every script of 7 operations (<=6 batch indices)'),
 ]
